@@ -6,6 +6,7 @@ import (
 	"encoding/json"
 	"flag"
 	"fmt"
+	"golang.org/x/tools/go/ssa"
 	"os"
 	"os/exec"
 	"path/filepath"
@@ -41,6 +42,7 @@ type CheckCfg struct {
 	Assumptions []string     `json:"assumptions"`
 	Outside     []string     `json:"outside_claim"`
 	Extra       []string     `json:"extra_steps"`
+	ZeroStubs   []string     `json:"zero_stubs"` // functions replaced by stubs returning zero values (calls are logged)
 }
 
 type KnownFinding struct {
@@ -154,6 +156,13 @@ func runCheck(id, tier, repo, only string, workers int, noNative bool) int {
 		fmt.Fprintln(os.Stderr, "load:", err)
 		writeEvidence(id, tier, seed, cfg, nil, nil, time.Since(start), "load-failed: "+err.Error(), 0, 0)
 		return 2
+	}
+	for _, zs := range cfg.ZeroStubs {
+		name := zs
+		eng.intrinsics[name] = func(x *Exec, fn *ssa.Function, args []Value) (Value, bool) {
+			x.calllog = append(x.calllog, name)
+			return x.zeroResults(fn), true
+		}
 	}
 	eng.seed = seed
 	eng.solverKind = envOr("VERIF_SOLVER", "z3")
